@@ -11,9 +11,16 @@
    Message.Unmarshal into a zero value of the same struct type returns every non-zero field unchanged and leaves every
    other field zero (C11_struct_roundtrip); the same holds when the marshalled message is packed and the bytes are
    unpacked into another message object first (C11_struct_wire_roundtrip: any coherent spec, any in-domain result of
-   Marshal, anything after the packed bytes). Nested structs (composites) to depth 3 and keepzero are covered by
-   correspondence over the whole matrix and by the oracle (partial). *)
-From Iso Require Import Model.Base Model.Padding Model.Encoding Model.Prefix Model.Bitmap Model.Spec Model.Field Model.Message Model.Marshal Proofs.BaseLemmas Proofs.MarshalProofs Proofs.MessageRoundtrip Proofs.MarshalStruct.
+   Marshal, anything after the packed bytes). Nested structs: Composite.Marshal of a pointer to a struct whose tagged
+   fields hold documented cells, zero values or - recursively, to any depth - pointers to such structs, followed by
+   Composite.Unmarshal into a nil pointer of the same type, returns every non-zero field unchanged at every depth
+   (C11_nested_roundtrip, by induction over the depth), and so does Message.Marshal / Message.Unmarshal for structs bound
+   to composite data elements of a message object that has not been populated (C11_struct_roundtrip_nested, depth within
+   the library's recursion = the model's fuel 8). keepzero: a struct field tagged keepzero is written whatever its value,
+   and the zero value of every documented Go type marshals (C11_keepzero_written, C11_zero_marshals); what a
+   keepzero zero field reads back as (a nil pointer comes back as a pointer to the zero value) is outside "every
+   non-zero field" and covered by correspondence over the whole matrix. *)
+From Iso Require Import Model.Base Model.Padding Model.Encoding Model.Prefix Model.Bitmap Model.Spec Model.Field Model.Message Model.Marshal Proofs.BaseLemmas Proofs.MarshalProofs Proofs.MessageRoundtrip Proofs.MarshalStruct Proofs.MarshalNested.
 From Coq Require Import Lia.
 
 Theorem C11_roundtrip_string :
@@ -110,6 +117,38 @@ Theorem C11_struct_wire_roundtrip : forall S m fields vals, length vals = length
 Proof. exact struct_wire_roundtrip. Qed.
 Print Assumptions C11_struct_wire_roundtrip.
 
+(* ... unless tagged keepzero *)
+Theorem C11_keepzero_written : forall S m d ft fv rest p st0 st,
+  it_keepzero (index_tag_of d) = true -> 2 <= it_id (index_tag_of d) ->
+  zlookup (it_id (index_tag_of d)) (ms_fields S) = Some (FPrim p) -> zlookup (it_id (index_tag_of d)) (m_fields m) = Some st0 ->
+  prim_marshal (ps_kind p) ft fv = Ok st ->
+  m_marshal_fields S m ((d, ft, fv) :: rest) =
+  m_marshal_fields S (with_present (with_fields m (zupdate (it_id (index_tag_of d)) st (m_fields m))) (zadd (it_id (index_tag_of d)) (m_present m))) rest.
+Proof. exact marshal_keepzero_written. Qed.
+Print Assumptions C11_keepzero_written.
+
+Theorem C11_zero_marshals : forall k t, documented k t = true -> exists st, prim_marshal k t (g_zero t) = Ok st.
+Proof. exact zero_marshals. Qed.
+Print Assumptions C11_zero_marshals.
+
+(* nested structs, Composite.Marshal / Composite.Unmarshal: vok n spells out the values (a documented non-zero cell of a
+   primitive subfield; for a composite a pointer to a struct whose tagged fields have pairwise distinct tags naming
+   subfields and hold zero values without keepzero or, recursively, such values); expv is what comes back: the non-zero
+   tagged fields as they are, everything else zero *)
+Theorem C11_nested_roundtrip : forall n s t v, vok n s t v ->
+  exists st, marshal_into n s (fresh s) t v = Ok st /\ unmarshal_from n s st t (g_zero t) = Ok (expv n s t v).
+Proof. exact nested_roundtrip. Qed.
+Print Assumptions C11_nested_roundtrip.
+
+Theorem C11_struct_roundtrip_nested : forall S m fields vals, length vals = length fields ->
+  let l := zip_decls fields vals in
+  Forall (grow_ok S m) l -> NoDup (map rid (filter indexed l)) ->
+  (forall r, In r l -> 0 <= rid r -> zmem (rid r) (m_present m) = false) ->
+  exists m', m_marshal S m (TPtr (TStruct fields)) (VPtr (Some (VStruct vals))) = (m', Ok tt) /\
+    m_unmarshal S m' (TPtr (TStruct fields)) (VPtr (Some (VStruct (map (fun df => g_zero (snd df)) fields)))) = Ok (VPtr (Some (VStruct (map (gexpected S) l)))).
+Proof. exact gstruct_roundtrip. Qed.
+Print Assumptions C11_struct_roundtrip_nested.
+
 (* an instance: struct { F0 string; F2 *string `iso8583:"2"`; Amount int64 `index:"3"`; Note string (no index); F4 string (zero) } *)
 Definition s11 : mspec :=
   {| ms_mti := {| ps_kind := KString; ps_enc := EncASCII; ps_pref := PFixed PfASCII; ps_len := 4; ps_pad := PadNone; ps_packer := PkDefault |};
@@ -134,4 +173,27 @@ Proof.
   - intros id s H. cbn [s11 ms_fields zlookup] in H. cbn [mfresh s11 ms_fields map m_fields zlookup].
     destruct (id =? 2); [eexists; reflexivity|]. destruct (id =? 3); [eexists; reflexivity|]. destruct (id =? 4); [eexists; reflexivity|discriminate].
   - vm_compute. repeat constructor; cbn; intuition discriminate.
+Qed.
+
+(* an instance of the nested theorem: a tagged composite with a String and a Numeric subfield and
+   &struct{ A string `index:"1"`; N int64 `index:"2"`; Skip string (no tag); Z string `index:"3"` (zero) } *)
+Definition cn : fspec :=
+  FComp (PVar PfASCII 2) 99 (CTag {| tg_len := 1; tg_enc := Some EncASCII; tg_pad := PadNone; tg_sort := SortByInt; tg_skip := false; tg_prefunk := None |})
+        [([x31], FPrim {| ps_kind := KString; ps_enc := EncASCII; ps_pref := PVar PfASCII 1; ps_len := 5; ps_pad := PadNone; ps_packer := PkDefault |});
+         ([x32], FPrim {| ps_kind := KNumeric; ps_enc := EncASCII; ps_pref := PVar PfASCII 1; ps_len := 5; ps_pad := PadNone; ps_packer := PkDefault |});
+         ([x33], FPrim {| ps_kind := KString; ps_enc := EncASCII; ps_pref := PVar PfASCII 1; ps_len := 5; ps_pad := PadNone; ps_packer := PkDefault |})].
+Definition tn : gty := TPtr (TStruct [(GDecl [x31] [] [x41], TStr); (GDecl [x32] [] [x4e], TInt64); (GDecl [] [] [x53], TStr); (GDecl [x33] [] [x5a], TStr)]).
+Definition vn : gval := VPtr (Some (VStruct [VStr [x61; x62]; VInt64 7; VStr [x78]; VStr []])).
+Example C11_ex_nested : vok 2 cn tn vn /\
+  expv 2 cn tn vn = VPtr (Some (VStruct [VStr [x61; x62]; VInt64 7; VStr []; VStr []])) /\
+  (exists st, marshal_into 2 cn (fresh cn) tn vn = Ok st /\ unmarshal_from 2 cn st tn (g_zero tn) = Ok (VPtr (Some (VStruct [VStr [x61; x62]; VInt64 7; VStr []; VStr []])))).
+Proof.
+  split; [|split; [vm_compute; reflexivity|eexists; split; vm_compute; reflexivity]].
+  cbn [vok cn]. split; [repeat constructor; cbn; intuition discriminate|]. eexists _, _. split; [reflexivity|]. split; [reflexivity|]. split; [reflexivity|].
+  split; [vm_compute; repeat constructor; cbn; intuition discriminate|]. cbn [zip_decls].
+  apply Forall_cons; [|apply Forall_cons; [|apply Forall_cons; [|apply Forall_cons; [|apply Forall_nil]]]].
+  - right. split; [reflexivity|]. eexists. split; [reflexivity|]. right. split; [reflexivity|]. eexists. apply c_s_str. discriminate.
+  - right. split; [reflexivity|]. eexists. split; [reflexivity|]. right. split; [reflexivity|]. eexists. apply c_n_int64. unfold max_int. lia.
+  - left. reflexivity.
+  - right. split; [reflexivity|]. eexists. split; [reflexivity|]. left. split; reflexivity.
 Qed.
